@@ -267,7 +267,7 @@ clause; distinct by enumeration index.",
     }],
     randoms: &[RandomDef {
         name: "decorated",
-        cases: |t: Tier| t.pick(40_000, 1_000_000),
+        cases: |t: Tier| t.pick(400_000, 6_000_000),
         tape_len: 200,
         exec: Some(exec_decorated),
     }],
